@@ -65,6 +65,10 @@ static struct {
 } stats;
 
 static void parse_registered(struct iauth_request *req, int from_ircd);
+#if defined(IAUTHD_C_VERIF)
+static void iauth_timeout(evutil_socket_t sock, short event, void *datum);
+void verif_reload(void);
+#endif
 
 /** Sends a message to the IRCD related to \a req.
  *
@@ -914,6 +918,19 @@ static void iauth_read(evutil_socket_t fd, short events, void *iauth_in_v)
             /* id is always -1 with current ircu. */
             parse_info_request(argc, argv);
             break;
+#if defined(IAUTHD_C_VERIF)
+        case '!':
+            /* Verification hook: deterministic schedule points. */
+            if (argc > 1 && !strcmp(argv[1], "timeout")) {
+                if (req && req->timeout && evtimer_pending(req->timeout, NULL)) {
+                    evtimer_del(req->timeout);
+                    iauth_timeout(-1, EV_TIMEOUT, req);
+                }
+            } else if (argc > 1 && !strcmp(argv[1], "reload")) {
+                verif_reload();
+            }
+            break;
+#endif
         }
 
         /* We are responsible for freeing the line. */
